@@ -28,15 +28,15 @@ PROPS = {
  ),
  "C02": dict(
     level="proof",
-    claim="Proof that the source multi-index produced by transpose/moveaxis/swapaxes/tile/repeat(non-repeated axes)/roll indexers lies inside the source shape for every in-shape destination index; that pad maps a padded coordinate to a source index inside the source shape exactly when it is not in the padding (index level, every axis and zone) and that view::pad then reads that source element, or the pad value without touching the source (ranks 1..3); and that static_vector never holds more than its capacity (inductive invariant over every mutator); buffer-position bounds for run-time shapes (non-linear) and slice-based views are not decided.",
+    claim="Proof that the source multi-index produced by transpose/moveaxis/swapaxes/tile/repeat(non-repeated axes)/roll indexers lies inside the source shape for every in-shape destination index; that pad maps a padded coordinate to a source index inside the source shape exactly when it is not in the padding (index level, every axis and zone) and that view::pad then reads that source element, or the pad value without touching the source (ranks 1..3); and that static_vector never holds more than its capacity (inductive invariant over every mutator); buffer-position bounds for run-time shapes (non-linear) and slice-based views are not decided. (c05_slice, counted here as well) every position a slice view reads is the position Python's slice.indices designates - inside the axis by construction - for every (start, stop, step) over the enumerated small extents.",
     note=E1_NOTE,
     technique=E1_TECH,
-    e1=[dict(tu="c03_rearrange.cpp"), dict(tu="c03b_dynamic.cpp"), dict(tu="c04_select.cpp"), dict(tu="c19_utl.cpp"), dict(tu="c02_capacity.cpp"), dict(tu="c03c_reshape.cpp"), dict(tu="c06b_broadcast_to.cpp"), dict(tu="c15b_pad_matmul.cpp"), dict(tu="c02c_padview.cpp"), dict(tu="c04c_take.cpp"), dict(tu="c04f_diagonal.cpp"), dict(tu="c12_enum.cpp"), dict(tu="c16c_capacity.cpp"), dict(tu="c02d_capacity2.cpp")],
+    e1=[dict(tu="c05_slice.cpp", flags=["-DC05_N=3"], count_as="C05"), dict(tu="c05_slice.cpp", flags=["-DC05_N=2", "-DC05_FIRST=8", "-DC05_LAST=21"], count_as="C05"), dict(tu="c03_rearrange.cpp"), dict(tu="c03b_dynamic.cpp"), dict(tu="c04_select.cpp"), dict(tu="c19_utl.cpp"), dict(tu="c02_capacity.cpp"), dict(tu="c03c_reshape.cpp"), dict(tu="c06b_broadcast_to.cpp"), dict(tu="c15b_pad_matmul.cpp"), dict(tu="c02c_padview.cpp"), dict(tu="c04c_take.cpp"), dict(tu="c04f_diagonal.cpp"), dict(tu="c12_enum.cpp"), dict(tu="c16c_capacity.cpp"), dict(tu="c02d_capacity2.cpp")],
     e2=[dict(rule="R-SIMD"), dict(rule="R-AXISNORM.simd")],
     e3=[dict(group="C02")],
     rule=E1_RULE,
     explanation="in-shape obligations are stated through the view's own indexer (indexing_t / decorator_t on the path); capacity obligations are an inductive class invariant (assume on entry, prove on exit).",
-    not_decided="offset < buffer length for run-time shapes (non-linear); slice/flip/pad/concatenate/sliding_window views; dynamic buffers; SIMD accesses are under C12",
+    not_decided="offset < buffer length for run-time shapes (non-linear); slices beyond the enumerated extents, flip/pad/concatenate/sliding_window views; dynamic buffers; SIMD accesses are under C12",
     assumptions=["destination index inside the view's shape", "extents >= 1"],
  ),
  "C03": dict(
